@@ -19,6 +19,7 @@
 #include "../../event_loop/event_loop.h"        // v0.12.0: EventLoop
 #include "../../event_loop/simple_event_loop.h" // v0.13.0: SimpleEventLoop
 #include "../../ffi_manager.h"                  // v0.13.0: FFI Manager
+#include "../../managers/types/enums.h"
 #include "../../managers/types/manager.h"
 #include "evaluator/access/receiver_resolution.h"
 #include "evaluator/core/evaluator.h"
@@ -1522,9 +1523,15 @@ int64_t ExpressionEvaluator::evaluate_function_call_impl(const ASTNode *node) {
         } else {
             // キャッシュミス：新しくインスタンス化
             try {
+                auto is_generic_enum = [this](const std::string &name) {
+                    const EnumDefinition *enum_def =
+                        interpreter_.get_enum_manager()->get_enum_definition(
+                            name);
+                    return enum_def && enum_def->is_generic;
+                };
                 instantiated_func =
                     GenericInstantiation::instantiate_generic_function(
-                        func, node->type_arguments);
+                        func, node->type_arguments, is_generic_enum);
                 func = instantiated_func.get();
                 callee_static_namespace = cache_key;
 
